@@ -94,9 +94,14 @@ Definition has_control (cs : list (name * node)) : bool :=
 Definition keep_nested (t : node) (p : path) : bool :=
   match lookup p t with Some (Dir cs) => negb (has_control cs) | _ => true end.
 
+(* iter_deletables, first test (commit b06b6de): an extra whose BASENAME is a control filename of any
+   registered format (controldir.is_control_filename: bzr -> ".bzr", git -> ".git") is never offered *)
+Definition is_control_name (c : name) : bool := name_eqb c n_bzr || name_eqb c n_git.
+Definition not_control (p : path) : bool := negb (is_control_name (last_name p)).
+
 Definition deletables (fl : flavour) (o : opts) (ign : list path) (t : node) (vs : list (path * bool))
   : list path :=
-  filter (keep_nested t) (filter (selected o ign) (extras fl t vs)).
+  filter (keep_nested t) (filter (selected o ign) (filter not_control (extras fl t vs))).
 
 (* clean_tree + delete_items: unlink / rmtree each deletable in turn *)
 Definition clean (fl : flavour) (o : opts) (ign : list path) (t : node) (vs : list (path * bool)) : node :=
